@@ -101,6 +101,9 @@ pub fn braille_mathml(mathml: Element, nav_node_id: &str) -> Result<(String, usi
 
             // need to highlight (optional) capital/number, language, and style (max 2 chars) also in that (rev) order
             let mut prefix_ch_index = std::cmp::max(0, start_index as isize - 5*3) as usize;
+            while !braille.is_char_boundary(prefix_ch_index) {
+                prefix_ch_index += 1;       // a passed-through (non-braille) character is not 3 bytes long
+            }
             if prefix_ch_index == 0 && braille_code == "UEB" {
                 // don't count the word or passage mode as part of a indicator
                 if braille.starts_with("⠰⠰⠰") {
